@@ -39,6 +39,8 @@ structure St where
   /-- C12: concurrent marking is in progress; `satbSet` = reach(shadow) at InitialMark, ids ≥ `satbFrom` were
   allocated during marking -/
   marking : Bool := false
+  /-- `gcw mode satb`: pauses are InitialMark / FinalMark pauses of a concurrent cycle (C12), not full collections -/
+  satb : Bool := false
   satbSet : Array Bool := #[]
   satbFrom : Nat := 0
   /-- ids that must be valid objects after FinalMark (filled at FinalMark, checked by `ismo` / `islive`) -/
@@ -82,7 +84,7 @@ def boolStr? (s : String) : Option Bool := if s == "true" then some true else if
 def ext (st : St) (pre : Driver.GCMon.St) (op res : List String) : St × String :=
   let paused := st.g.gcs != pre.gcs
   -- 1. a pause happened while this op ran: the collection saw the heap as it was before the op
-  let st := if paused && !st.concurrent then
+  let st := if paused && !st.satb then
       let nursery := st.generational && (match op with | ["gc", _, "0"] => true | _ => false)
       onPause st pre.heap nursery
     else st
@@ -177,6 +179,19 @@ def ext (st : St) (pre : Driver.GCMon.St) (op res : List String) : St × String 
         (st, viol "gc:referent-mismatch" s!"id={i} referent={" ".intercalate res} model={wantS} registered={registered}")
       else (st, "ok")
     | none => (st, "ok")
+  | ["ismo", a] =>
+    -- C06: an object the model keeps alive (ready for finalization / retained / resurrected) at a known, fixed
+    -- address is still a valid object
+    match num? a with
+    | some a =>
+      match st.g.lastRef.findIdx? (· == a) with
+      | some i =>
+        if a != 0 && st.g.vobit && st.g.collects && fixedObj st.g i && !st.satb
+            && (st.alive.getD i false || decide (st.bornBefore ≤ i)) && res != [toString i] then
+          (st, viol "gc:ready-not-alive" s!"id={i} at {a} is kept alive by the model (ready for finalization, retained or reachable) but is_mmtk_object answers {" ".intercalate res}")
+        else (st, "ok")
+      | none => (st, "ok")
+    | none => (st, "ok")
   | _ => (st, "ok")
 
 /-- C06 on a snapshot: field 0 of every registered reference object -/
@@ -209,6 +224,7 @@ def step (st : St) (args : List String) : St × String :=
   match args with
   | ["reset"] => ({}, "ok")
   | ["mode", "emergency"] => ({ st with emergency := true }, "ok")
+  | ["mode", "satb"] => ({ st with satb := true }, "ok")
   | "op" :: toks => if toks.isEmpty then (st, viol "prog:parse" "empty op") else ({ st with pending := toks }, "ok")
   | "res" :: toks =>
     if st.pending.isEmpty then (st, viol "prog:no-op" "result without an op")
